@@ -372,7 +372,7 @@ func genC14API(rt *rapid.T) c14APICase {
 
 func execC14API(c c14APICase) Outcome {
 	rec := &Rec{}
-	tr := sessiontracker.NewSessionTracker(newWriter(rec), nil)
+	tr := sessiontracker.NewSessionTracker(newWriter(rec), vhLogger)
 	l := loginFor(0, hop{K: "login", P: 1})
 	lcopy := deepCopyEvent(l.Source)
 	if err := tr.RemoteLogin(l); err != nil {
